@@ -27,4 +27,19 @@ def C04compound (t : Entry × Entry × Bool) : Bool :=
   | some a, some b => a == b
   | _, _ => false
 
+/-- C16: converting constructors / assignments cast each component in its slot. -/
+def C16cast (e : Entry) : Bool := checkCast classes e
+/-- C16: the converting constructor of a direction class is cast-then-normalise. -/
+def C16dir (t : Entry × Entry) : Bool := checkDirCast t.1 t.2
+/-- C17: Zero, value accessors and mutators. -/
+def C17access (e : Entry) : Bool := checkAccess classes e
+/-- C17: compiler-reported layout. -/
+def C17layout (r : LayoutRow) : Bool := checkLayout classes r
+/-- C17 / C20: no entry point reads an indeterminate number. The one documented exception: the
+default constructors of the constitutive models leave their moduli default-initialised, exactly as
+`Speed<> s;` does; reading them before assigning is the caller's error, not a library path. -/
+def C20uninit (e : Entry) : Bool := (e.kind == .modelCtor && e.nIn == 0) || checkNoUninit e
+/-- The same without the exception (quantity and unit entry points). -/
+def C20uninitStrict (e : Entry) : Bool := checkNoUninit e
+
 end PhQVerif.Chk
